@@ -1152,8 +1152,18 @@ class Interp:
         if isinstance(st, ast.ImportFrom):
             pkg = fr.module.__package__ if st.level else None
             name = "." * st.level + (st.module or "")
-            mod = importlib.import_module(name, pkg)
+            try:
+                mod = importlib.import_module(name, pkg)
+            except Unsupported:
+                raise
+            except Exception as e:      # noqa: BLE001
+                # an import statement of the code under contract fails natively (a sibling generated module that does not even
+                # import): python raises that exception at this statement
+                self.raise_(type(e) if isinstance(e, (ImportError, SyntaxError, NameError, TypeError, ValueError, AttributeError))
+                            else ImportError, f"import of {name} failed: {type(e).__name__}: {str(e)[:160]}")
             for al in st.names:
+                if not hasattr(mod, al.name):
+                    self.raise_(ImportError, f"cannot import name '{al.name}' from '{name}'")
                 fr.locals[al.asname or al.name] = getattr(mod, al.name)
         else:
             for al in st.names:
